@@ -106,8 +106,10 @@ class StorageTools:
         if not os.path.exists(os.path.dirname(path)):
             os.makedirs(os.path.dirname(path))
 
-        with open(path, 'w' if type(val) is str else 'wb') as attrFile:
+        tmpPath = path + ".tmp"
+        with open(tmpPath, 'w' if type(val) is str else 'wb') as attrFile:
             attrFile.write(val)
+        os.replace(tmpPath, path)
 
     @staticmethod
     def readProfileData(profile_name, name, default=None):
